@@ -196,6 +196,8 @@ def lookupExpr (o : Ord) (db : Db) (n f x : Str) : Option Prod :=
 
 /-! ## `findProductFromVRO` -/
 
+deriving instance DecidableEq for Except
+
 inductive Err where
   | badExpr        -- `isLegalRelativeVersion` raised EupsException ("= 1.0": did you mean '=='?)
   | indexError     -- a bare `warn` entry: `int(vroTag.split(":")[1])`
@@ -285,55 +287,70 @@ def Req.named (r : Req) : Option Str :=
   | some v => if v.isEmpty || r.ignoreVersions then none else some v
   | none => none
 
-/-- The body of the `for i, vroTag in enumerate(vro)` loop for one entry; `post = vro[i+1:]`.
+/-- the expression lookup of a `versionExpr` entry (l.856-863): `x` is the `versionExpr` in force -/
+def exprPart (C : Ctx) (r : Req) (x : Option Str) : Except Err (Option Prod) :=
+  match x with
+  | none => .ok none
+  | some x =>
+    if x.isEmpty then .ok none
+    else
+      match isExpr x with
+      | .error err => .error err
+      | .ok true => .ok (lookupExpr C.ord C.db r.name r.flavor x)
+      | .ok false => .ok none
+
+/-- a `version` / `version!` / `versionExpr` entry for a request naming `v` (l.840-912).
 
 The code threads one piece of state through the loop: `versionExpr = version` is executed at a
 `versionExpr` entry when the requested version is an expression.  The assignment is idempotent and
 `versionExpr` is read only at `versionExpr` entries, directly after it, so the state is a function of
 the request and the loop body is modelled without it. -/
+def lookupVT (C : Ctx) (r : Req) (e : Str) (post : List Str) (v : Str) : Except Err Outcome :=
+  match isExpr v with
+  | .error err => .error err
+  | .ok ex =>
+    if ex && e != kVersionExpr then
+      -- an expression at a `version` entry: wait for `versionExpr` if there is one
+      if post.contains kVersionExpr then .ok .skip else .ok .abort
+    else
+      match exprPart C r (if e == kVersionExpr then (if ex then some v else r.vexpr) else none) with
+      | .error err => .error err
+      | .ok (some p) => .ok (.hit p kVersionExpr)
+      | .ok none =>
+        -- "If we failed to find a versionExpr, we can still use the explicit version"
+        match lookupVersion C.db r.name v r.flavor with
+        | some p => .ok (.hit p (if r.depth == 0 then kCommandLine else kVersion))
+        | none => if post.any isVT then .ok .skip else .ok .abort   -- never falls through to tags
+
+/-- a tag entry (`latest` included) -/
+def lookupTagEntry (C : Ctx) (r : Req) (e : Str) : Outcome :=
+  match (if e == kLatest then lookupLatest C.ord.cmp C.dbLatest r.name r.flavor
+         else lookupTag C.db e r.name r.flavor) with
+  | some p => .hit p e
+  | none => .skip
+
+/-- The body of the `for i, vroTag in enumerate(vro)` loop for one entry; `post = vro[i+1:]`. -/
 def lookupEntry (C : Ctx) (r : Req) (e : Str) (post : List Str) : Except Err Outcome :=
-  if hasInfix e kPath then pure .skip                 -- `vroTag in ("path")`: a substring test
+  if hasInfix e kPath then .ok .skip                  -- `vroTag in ("path")`: a substring test
   else if 0 < r.depth && e == kKeep then
     match r.already with
-    | some (p, _) => pure (.hit p kKeep)
-    | none => pure .skip
+    | some (p, _) => .ok (.hit p kKeep)
+    | none => .ok .skip
   else if e == kCommandLine then
     match r.already with
-    | some (p, some rt) => if rt == kCommandLine then pure (.hit p kCommandLine) else pure .skip
-    | _ => pure .skip
+    | some (p, some rt) => if rt == kCommandLine then .ok (.hit p kCommandLine) else .ok .skip
+    | _ => .ok .skip
   else if isVT e then
     match r.named with
-    | none => pure .skip
-    | some v => do
-      let ex ← isExpr v
-      if ex && e != kVersionExpr then
-        if post.contains kVersionExpr then pure .skip else pure .abort
-      else
-        let vexpr := if ex then some v else r.vexpr
-        let viaExpr ← (match (if e == kVersionExpr then vexpr else none) with
-          | some x =>
-            if x.isEmpty then pure none
-            else do
-              if ← isExpr x then pure (lookupExpr C.ord C.db r.name r.flavor x) else pure none
-          | none => pure none : Except Err (Option Prod))
-        match viaExpr with
-        | some p => pure (.hit p kVersionExpr)
-        | none =>
-          match lookupVersion C.db r.name v r.flavor with
-          | some p => pure (.hit p (if r.depth == 0 then kCommandLine else kVersion))
-          | none => if post.any isVT then pure .skip else pure .abort
+    | none => .ok .skip
+    | some v => lookupVT C r e post v
   else if isWarn e then
-    if e == kWarn then throw .indexError else pure .skip
+    if e == kWarn then .error .indexError else .ok .skip
   else if e.contains colon then
-    if isType e then pure .skip else throw .unsupported
+    if isType e then .ok .skip else .error .unsupported
   else if C.recognized e then
-    if e == kSetup then throw .unsupported
-    else
-      match (if e == kLatest then lookupLatest C.ord.cmp C.dbLatest r.name r.flavor
-             else lookupTag C.db e r.name r.flavor) with
-      | some p => pure (.hit p e)
-      | none => pure .skip
-  else pure .skip                                      -- "Impossible entry on the VRO"
+    if e == kSetup then .error .unsupported else .ok (lookupTagEntry C r e)
+  else .ok .skip                                       -- "Impossible entry on the VRO"
 
 /-- a product, the reason reported for it, and the VRO entry at which the loop stopped (`vroTag0`) -/
 structure Hit where
@@ -344,12 +361,13 @@ deriving DecidableEq, Repr
 
 /-- the loop: stop at the first entry that does not say `continue` -/
 def walk (C : Ctx) (r : Req) : List Str → Except Err (Option Hit)
-  | [] => pure none
-  | e :: post => do
-    match ← lookupEntry C r e post with
-    | .skip => walk C r post
-    | .abort => pure none
-    | .hit p reason => pure (some ⟨p, reason, e⟩)
+  | [] => .ok none
+  | e :: post =>
+    match lookupEntry C r e post with
+    | .error err => .error err
+    | .ok .skip => walk C r post
+    | .ok .abort => .ok none
+    | .ok (.hit p reason) => .ok (some ⟨p, reason, e⟩)
 
 def idxOf (e : Str) : List Str → Nat
   | [] => 0
@@ -364,10 +382,11 @@ def applyAlready (r : Req) (vro : List Str) (h : Hit) : Hit :=
   | _ => h
 
 /-- `findProductFromVRO` -/
-def find (C : Ctx) (r : Req) (vro : List Str) : Except Err (Option Hit) := do
-  match ← walk C r vro with
-  | none => pure none
-  | some h => pure (some (applyAlready r vro h))
+def find (C : Ctx) (r : Req) (vro : List Str) : Except Err (Option Hit) :=
+  match walk C r vro with
+  | .error err => .error err
+  | .ok none => .ok none
+  | .ok (some h) => .ok (some (applyAlready r vro h))
 
 /-! ## the flavor loop of `Eups.setup` (l.1872-1918) -/
 
